@@ -81,7 +81,100 @@ def plan_conv(pid, tier, seed):
     )
 
 
+def plan_wrap(pid, tier, seed):
+    n8, nw = ("120", "60") if tier == "quick" else ("3000", "1500")
+    gens = []
+    for prof in ("unchecked", "checked"):
+        gens.append(dict(name="wrap8_" + prof, profile=prof, bin="wrap", dom="int", per_shard=20000,
+                         args=["--tier", tier, "--seed", str(seed), "--n", n8]))
+        gens.append(dict(name="wrapwide_" + prof, profile=prof, bin="wrap", dom="big", per_shard=4000,
+                         args=["--big", "--tier", tier, "--seed", str(seed), "--n", nw]))
+    return dict(
+        bins=["wrap"], profiles=["unchecked", "checked"], gens=gens, designs=[],
+        nontrivial=lambda line: line.startswith('{"k":"w",') and '"r":[0,0]' not in line and '"r":[0,[0]]' not in line,
+        rule="random programs of 14 steps over four registers of Wrapping<F> (3 loads from the boundary lattice, then +,-,*,/,%, "
+             "&,|,^, div/rem_euclid, *,/,% and Euclidean ops by an integer, << and >> with all 12 amount types and negative / huge "
+             "amounts, neg, not, abs, signum, next_power_of_two, rounding methods, int/frac, Sum, Product, from_num; by-value, "
+             "by-reference and assigning forms) on all 18 8-bit layouts and 18 wider layouts, run under BOTH build profiles. TLC threads "
+             "the register state itself (WRegNext) and recomputes every step from its own registers. Non-trivial: an operation step "
+             "with a non-zero result; distinct by event content.",
+        assumptions=["TLC, BigInt.tla and the harness's JSON encoders are trusted",
+                     "int()/frac() on layouts without integer bits are not pinned down by the property and only required not to panic",
+                     "Wrapping parsing (from_str*) is covered under C08's corpus"],
+    )
+
+
+ALL_ARITH = "neg,abs,signum,add,sub,mul,div,rem,div_euclid,rem_euclid,mul_int,div_int,rem_int,div_euclid_int,rem_euclid_int," \
+            "ceil,floor,round,round_ties_to_even,round_to_zero,int,frac"
+
+
+def pair_profiles(traces, wdir, tier, seed):
+    """pair the unchecked / checked traces of the same corpus line by line into 'pair' events"""
+    by = {}
+    for path, dom, per in traces:
+        name = os.path.basename(path)[:-7]
+        base, prof = name.rsplit("_", 1)
+        by.setdefault(base, {})[prof] = (path, dom, per)
+    out = []
+    for base, d in sorted(by.items()):
+        (pu, dom, per), (pc, _, _) = d["u"], d["c"]
+        keep = 1
+        if tier == "quick":
+            keep = {"arith8": 40, "conv8": 24, "arithwide": 4, "convwide": 3}.get(base, 1)
+        po = os.path.join(wdir, base + "_pair.ndjson")
+        n = 0
+        with open(pu) as fu, open(pc) as fc, open(po, "w") as fo:
+            for i, (lu, lc) in enumerate(zip(fu, fc)):
+                if keep > 1 and (i + seed) % keep != 0:
+                    continue
+                fo.write('{"k":"pair","u":%s,"c":%s}\n' % (lu.rstrip("\n"), lc.rstrip("\n")))
+                n += 1
+            if fu.readline() or fc.readline():
+                raise core.ToolError("profile traces of %s differ in length" % base)
+        os.remove(pu)
+        os.remove(pc)
+        out.append((po, dom, max(1000, per // 2)))
+    return out
+
+
+def plan_profile(pid, tier, seed):
+    n = "60" if tier == "quick" else "1500"
+    nc = "12" if tier == "quick" else "200"
+    nw8, nww = ("120", "60") if tier == "quick" else ("2000", "1000")
+    gens = []
+    for prof, tag in (("unchecked", "u"), ("checked", "c")):
+        gens += [
+            dict(name="arith8_" + tag, profile=prof, bin="arith", dom="int", per_shard=25000,
+                 args=["--topic", ALL_ARITH, "--widths", "8", "--tier", tier, "--seed", str(seed)]),
+            dict(name="arithwide_" + tag, profile=prof, bin="arith", dom="big", per_shard=6000,
+                 args=["--topic", ALL_ARITH, "--widths", "16,32,64,128", "--big", "--tier", "quick", "--seed", str(seed), "--n", n]),
+            dict(name="conv8_" + tag, profile=prof, bin="conv", dom="int", per_shard=30000,
+                 args=["--topic", "cmp,conv,bool,from,ord,codec", "--tier", tier, "--seed", str(seed)]),
+            dict(name="convwide_" + tag, profile=prof, bin="conv", dom="big", per_shard=5000,
+                 args=["--topic", "cmp,cmpf,conv,bool,from,f2x,x2f", "--big", "--tier", tier, "--seed", str(seed), "--n", nc]),
+            dict(name="wrap8_" + tag, profile=prof, bin="wrap", dom="int", per_shard=20000,
+                 args=["--tier", tier, "--seed", str(seed), "--n", nw8]),
+            dict(name="wrapwide_" + tag, profile=prof, bin="wrap", dom="big", per_shard=4000,
+                 args=["--big", "--tier", tier, "--seed", str(seed), "--n", nww]),
+        ]
+    return dict(
+        bins=["arith", "conv", "wrap"], profiles=["unchecked", "checked"], gens=gens, designs=[],
+        post_gen=[pair_profiles],
+        nontrivial=lambda line: '"a":0,' not in line and '"a":[0],' not in line,
+        rule="the union corpus of the arithmetic (22 operations x all forms), comparison, conversion, float, codec and Wrapping "
+             "generators is recorded twice, by the harness built with debug-assertions+overflow-checks on ('checked') and off "
+             "('unchecked'); the two traces are paired record by record and TLC requires every outcome slot to be identical, or the "
+             "checked build to panic where PanicAllowed holds (un-prefixed form whose exact result does not fit, zero divisor). "
+             "Quick: a 1/40 (8-bit arithmetic), 1/24 (8-bit conversions), 1/4 and 1/3 (wide) sample of the pairs. Non-trivial: operand a != 0.",
+        assumptions=["only native x86-64 builds can be executed here; the Wasm build of the statement is not exercised",
+                     "both builds use opt-level 0; the profiles differ exactly in debug-assertions and overflow-checks",
+                     "TLC, BigInt.tla and the harness's JSON encoders are trusted"],
+    )
+
+
 PLANS = {
+    "C11": lambda t, s: plan_profile("C11", t, s),
+    "C18": lambda t, s: plan_wrap("C18", t, s),
     "C03": lambda t, s: plan_conv("C03", t, s),
     "C04": lambda t, s: plan_conv("C04", t, s),
     "C05": lambda t, s: plan_conv("C05", t, s),
